@@ -8,6 +8,7 @@ import (
 	"os"
 	"path/filepath"
 	"strconv"
+	"strings"
 	"testing"
 	"time"
 )
@@ -41,6 +42,9 @@ func deriveSeed(base int64, property, variant string, i int64) int64 {
 
 // presetFor maps a property and variant to the preset that decides it.
 func presetFor(property, variant string) string {
+	if variant == "sweep" {
+		return "full"
+	}
 	if variant != "" {
 		return variant
 	}
@@ -92,6 +96,82 @@ func TestSim(t *testing.T) {
 	}
 }
 
+// genSweepPilot derives a small fault-free plan whose API calls are then
+// enumerated as single fault points.
+func genSweepPilot(seed int64, property string) *Plan {
+	p := genFull(seed, property)
+	p.Faults, p.Pinned, p.Crashes, p.Lags, p.Relists = nil, nil, nil, nil, nil
+	p.Sched = SchedOpts{Mode: "fair", APILatencyUs: p.Sched.APILatencyUs}
+	p.Proc.ReadYield = false
+	p.Proc.ResyncSec = 0
+	p.Saturate = false
+	// at most three Jobs, no kills/deletes: the sweep is about create/record/adopt
+	var ops []UserOp
+	n := 0
+	for _, op := range p.Ops {
+		if op.Kind == "createJob" && n < 3 {
+			ops = append(ops, op)
+			n++
+		}
+	}
+	p.Ops = ops
+	if len(p.JobConfigs) > 1 {
+		p.JobConfigs = p.JobConfigs[:1]
+	}
+	for i := range p.JobConfigs {
+		p.JobConfigs[i].Cron = nil
+		p.JobConfigs[i].NoSchedule = true
+	}
+	if p.DurationSec > 90 {
+		p.DurationSec = 90
+	}
+	return p
+}
+
+var sweepKinds = []string{"drop", "lostack", "crash-before", "crash-after"}
+
+// runSweep: for every pilot plan, every API call of its fault-free execution is
+// hit by exactly one fault of every kind (complete single-fault enumeration).
+func runSweep(t *testing.T, property string, base, from, to, stride int64, budget time.Duration, outDir string, emit func(line map[string]interface{})) {
+	start := time.Now()
+	for i := from; i < to; i += stride {
+		if budget > 0 && time.Since(start) > budget {
+			break
+		}
+		seed := deriveSeed(base, property, "sweep", i)
+		pilot := genSweepPilot(seed, property)
+		stop := watchdog(fmt.Sprintf("sweep pilot property=%s runseed=%d", property, seed), 120*time.Second)
+		pres := RunPlan(t, pilot, NewChoices(1), false)
+		stop()
+		n := pres.APICalls
+		pres.Stats["sweep.pilot_calls"] = n
+		emit(map[string]interface{}{"i": i, "res": pres, "wallMs": 0, "sweep": "pilot", "plan": pilot})
+		if len(pres.Violations) > 0 || pres.HarnessErr != "" {
+			continue
+		}
+		complete := true
+		for k := 1; k <= n; k++ {
+			for _, kind := range sweepKinds {
+				if budget > 0 && time.Since(start) > budget*3 {
+					complete = false
+					break
+				}
+				plan := *pilot
+				plan.Pinned = []PinnedFault{{N: k, Fault: kind, RestartMs: int64(500 + 1500*(k%3))}}
+				stop := watchdog(fmt.Sprintf("sweep property=%s runseed=%d call=%d kind=%s", property, seed, k, kind), 120*time.Second)
+				t0 := time.Now()
+				res := RunPlan(t, &plan, NewChoices(1), false)
+				stop()
+				res.Stats["sweep.points"] = 1
+				emit(map[string]interface{}{"i": i, "res": res, "wallMs": time.Since(t0).Milliseconds(), "sweep": fmt.Sprintf("%d/%d %s", k, n, kind), "plan": &plan})
+			}
+		}
+		if complete {
+			emit(map[string]interface{}{"i": i, "sweepComplete": true, "calls": n, "kinds": len(sweepKinds)})
+		}
+	}
+}
+
 func runCampaign(t *testing.T) {
 	property := os.Getenv("VERIF_PROPERTY")
 	variant := os.Getenv("VERIF_PRESET")
@@ -118,6 +198,40 @@ func runCampaign(t *testing.T) {
 		defer f.Close()
 		out = bufio.NewWriter(f)
 		defer out.Flush()
+	}
+	if variant == "sweep" {
+		runSweep(t, property, base, from, to, stride, budget, outDir, func(line map[string]interface{}) {
+			if res, ok := line["res"].(*Result); ok {
+				if len(res.Violations) > 0 || res.HarnessErr != "" {
+					plan := line["plan"].(*Plan)
+					rp := &Replay{Property: property, Seed: plan.Seed, Plan: plan, Choices: res.choices, Trace: res.Trace, Violation: nil}
+					if len(res.Violations) > 0 {
+						rp.Violation = &res.Violations[0]
+					}
+					if outDir != "" {
+						path := filepath.Join(outDir, fmt.Sprintf("fail-%s-%d-%s.json", property, plan.Seed, strings.ReplaceAll(fmt.Sprint(line["sweep"]), "/", "_")))
+						path = strings.ReplaceAll(path, " ", "_")
+						b, _ := json.MarshalIndent(rp, "", " ")
+						os.WriteFile(path, b, 0o644)
+						line["replay"] = path
+					}
+				} else if line["sweep"] == "pilot" && outDir != "" {
+					b, _ := json.Marshal(&Replay{Property: property, Seed: res.Seed, Plan: line["plan"].(*Plan)})
+					os.WriteFile(filepath.Join(outDir, fmt.Sprintf("sample-%d.json", from)), b, 0o644)
+				}
+				res.Trace = nil
+			}
+			delete(line, "plan")
+			b, _ := json.Marshal(line)
+			if out != nil {
+				out.Write(b)
+				out.WriteByte('\n')
+				out.Flush()
+			} else {
+				fmt.Println(string(b))
+			}
+		})
+		return
 	}
 	start := time.Now()
 	for i := from; i < to; i += stride {
